@@ -295,8 +295,13 @@ class CFG:
             return nxt
         if isinstance(expr, ast.UnaryOp) and isinstance(expr.op, ast.Not):
             return self._cond(expr.operand, f, t, ctx)
-        if isinstance(expr, ast.Constant) and isinstance(expr.value, bool):
+        if isinstance(expr, ast.Constant):
             return t if expr.value else f
+        if isinstance(expr, ast.Compare) and len(expr.ops) == 1 and isinstance(expr.left, ast.Constant) \
+                and isinstance(expr.comparators[0], ast.Constant) and isinstance(expr.ops[0], (ast.Is, ast.IsNot, ast.Eq, ast.NotEq)):
+            l, r = expr.left.value, expr.comparators[0].value
+            same = (l is r) if isinstance(expr.ops[0], (ast.Is, ast.IsNot)) else (l == r)
+            return t if same == isinstance(expr.ops[0], (ast.Is, ast.Eq)) else f
         from .astutil import positive
         pexpr, flipped = positive(expr)
         # a local that only ever holds a real bool: `flag is False` / `flag == False` is `not flag`
